@@ -135,6 +135,8 @@ impl Framed {
         let mut buf = self.codec.encode(&packet.into())?;
         if !buf.is_empty() {
             self.inner.write_all_buf(&mut buf).await?;
+            // transports that queue (the websocket adaptor) only promise delivery once flushed
+            self.inner.flush().await?;
         }
 
         Ok(())
